@@ -390,7 +390,10 @@ PROPS["C15"] = {
                    "short after any number of datastore operations keeps the timestamp / snapshot / targets guard of C03 "
                    "(crash_ts, crash_snap, crash_tgt: stored document of version >= v that verifies under the recorded "
                    "root) unless the cycle saw a root change that exempts it; lifted to histories of any length in which "
-                   "any cycle may be cut short anywhere (timestamp/snapshot/targets_protected_despite_crashes); the "
+                   "any cycle may be cut short anywhere (timestamp/snapshot/targets_protected_despite_crashes); from "
+                   "every crash state of a successful cycle the same cycle succeeds again with the same view "
+                   "(crash_no_lockout, via Proofs/ClientRerun.lean: a step depends on the datastore only through the clock "
+                   "sample and whether its own stored document blocks the result); the "
                    "truncate-then-write create of the original code is refuted by a concrete witness. Correspondence: the "
                    "datastore the real client leaves behind is one of the model's crash states, and both follow-up cycles "
                    "end as the model's do from that state; the property is also evaluated directly: the replay must be "
@@ -398,13 +401,15 @@ PROPS["C15"] = {
                    "current repository must be accepted.",
     "level_text": "Kernel-checked invariant over every crash point of the cycle model and every history of interrupted cycles; "
                   "fault enumeration over every datastore system call of the real client (kill / ENOSPC / EIO).",
-    "level_note": "PARTIAL: (1) the no-lock-out half of the property (an interrupted cycle never makes the client refuse a "
-                  "repository that is at least as new) is checked by the fault enumeration on the current repository and by "
-                  "C03's `rollback_errors_mean_older`, not yet by a crash-state theorem of its own; (2) the model's create is "
-                  "atomic: that the real create (temporary file, fsync, rename) is atomic under process death and failed "
-                  "writes rests on POSIX rename semantics and is exercised, not proved; power loss (un-synced directory "
-                  "entries) is outside the model; (3) 'the datastore only changes through logged operations' is by "
-                  "inspection of the eight update sites of the model.",
+    "level_note": "Both halves are proved over the model: protection (crash_ts/snap/tgt and their lifts to histories of "
+                  "interrupted cycles) and no lock-out (crash_no_lockout: from every datastore a successful cycle can leave "
+                  "behind when cut short, the same cycle succeeds again with the same view). PARTIAL with respect to the "
+                  "runtime and to generality: (1) no-lock-out is proved for the repository that was being fetched; for an "
+                  "arbitrary later repository it is enumerated (scenarios RotateSnapRestart etc.), not proved; (2) the "
+                  "model's create is atomic: that the real create (temporary file, fsync, rename) is atomic under process "
+                  "death and failed writes rests on POSIX rename semantics and is exercised, not proved; power loss "
+                  "(un-synced directory entries) is outside the model; (3) 'the datastore only changes through logged "
+                  "operations' is by inspection of the eight update sites of the model.",
     "trusted": ["strace 6.1 fault injection (inject=SYSCALL:signal=KILL|error=E:when=K) and its log",
                 "modelled, not verified: the file system (rename replaces atomically; a failed call has no effect)"],
     "assumptions": ["process death or a failed system call, not power loss", "one client process per datastore directory"],
